@@ -13,6 +13,7 @@ package bootstrap
 // New (C18): every upstream gets its OWN resolver object carrying exactly the host and the port
 // it was configured with (nothing is shared between upstreams).
 //@ func New [C18]
+//@   log bootstrapNew
 //@   modifies *
 //@   ensures result_1 == nil ==> result_0 != nil && fresh(result_0) && result_0.port == port && result_0.fqdn == ret(dnsFqdn, 0) && arg(dnsFqdn, 0, 0) == host && result_0.readyNotify != nil
 //@   ensures (result_0 != nil) != (result_1 != nil)
